@@ -141,7 +141,10 @@ class Session:
                     out.append(Violation('completed-early', 'pending', '%s: call %d is pending in the model but completed=%d notified=%d result=%s' % (opdesc, i, completed, notified, result), None))
             elif c['state'] == 'cancelled':
                 if notified:
-                    out.append(Violation('cancelled-call-notified', 'cancel', '%s: cancelled call %d was notified %d times' % (opdesc, i, notified), None))
+                    # the recorded finding is specifically a blocking wait ON the cancelled call; a notification reaching a
+                    # cancelled call by any other path (late reply dispatched, timeout fired, disconnect) is a different defect
+                    how = 'block-after-cancel' if opdesc.startswith("['block', %d" % i) else 'other-path'
+                    out.append(Violation('cancelled-call-notified', how, '%s: cancelled call %d was notified %d times' % (opdesc, i, notified), None))
             else:
                 if not completed:
                     out.append(Violation('not-completed', c['outcome'][0], '%s: call %d should be complete (%r) but is not (notified=%d)' % (opdesc, i, c['outcome'], notified), None))
@@ -239,7 +242,7 @@ class Session:
                     resp = self.h.cmd('PUMP')
                 vs = []
                 self.judge(resp, vs, desc)
-                if vs and all(v.fingerprint == 'cancelled-call-notified/cancel' for v in vs) and 'cancelled-call-notified/cancel' in known_fingerprints('C17'):
+                if vs and all(v.fingerprint == 'cancelled-call-notified/block-after-cancel' for v in vs) and 'cancelled-call-notified/block-after-cancel' in known_fingerprints('C17'):
                     for v in vs:
                         v.resynced = True
                     c['state'] = 'done'
